@@ -62,8 +62,10 @@ func (c20) ID() string { return "C20" }
 
 func (c20) Plan(tier string) []fw.Unit {
 	us := []fw.Unit{{Check: "C20", Kind: "immutability", Tier: tier, Spec: fw.Spec(enumSpec{})}}
-	for s := 0; s < 8; s++ {
-		us = append(us, fw.Unit{Check: "C20", Kind: "pairs", Tier: tier, Spec: fw.Spec(enumSpec{Shard: s, Shards: 8})})
+	// one unit = one worker process per pair: the process-wide registries are fresh when the pair's baselines are taken
+	n := len(c20Pairs())
+	for s := 0; s < n; s++ {
+		us = append(us, fw.Unit{Check: "C20", Kind: "pairs", Tier: tier, Spec: fw.Spec(enumSpec{Shard: s, Shards: n})})
 	}
 	return us
 }
@@ -181,7 +183,7 @@ func c20Pairs() []c20Pair {
 
 // c20RunSchedule runs instance A and B in one process with their inputs interleaved according
 // to order (a sequence of 'A'/'B'); returns the outputs of each instance.
-func c20RunSchedule(p c20Pair, seqA, seqB []int, order string) (outA, outB []string, err string) {
+func c20RunSchedule(p c20Pair, seqA, seqB []int, order string, lazy bool) (outA, outB []string, err string) {
 	functions.VerifResetGlobals()
 	st, pv := inSched(func() {
 		mk := func(in c20Inst, out *[]string) *streamsql.Streamsql {
@@ -199,10 +201,10 @@ func c20RunSchedule(p c20Pair, seqA, seqB []int, order string) (outA, outB []str
 			return s
 		}
 		var sa, sb *streamsql.Streamsql
-		if strings.Contains(order, "A") {
+		if strings.Contains(order, "A") && !lazy {
 			sa = mk(p.A, &outA)
 		}
-		if strings.Contains(order, "B") {
+		if strings.Contains(order, "B") && !lazy {
 			sb = mk(p.B, &outB)
 		}
 		if err != "" {
@@ -210,6 +212,15 @@ func c20RunSchedule(p c20Pair, seqA, seqB []int, order string) (outA, outB []str
 		}
 		ia, ib := 0, 0
 		for _, c := range order {
+			if c == 'A' && sa == nil {
+				sa = mk(p.A, &outA)
+			}
+			if c == 'B' && sb == nil {
+				sb = mk(p.B, &outB)
+			}
+			if err != "" {
+				return
+			}
 			if c == 'A' {
 				sa.Emit(copyVal(p.A.Rows[seqA[ia]]).(map[string]any))
 				ia++
@@ -257,49 +268,91 @@ func c20RunPairs(a *acc, sp enumSpec, tier string) {
 	if tier == "thorough" {
 		maxL = 3
 	}
-	idx := 0
-	for _, p := range c20Pairs() {
-		for la := 1; la <= maxL; la++ {
-			sequences(la, len(p.A.Rows), func(sa []int) {
-				sa = append([]int(nil), sa...)
-				for lb := 1; lb <= maxL; lb++ {
-					sequences(lb, len(p.B.Rows), func(sb []int) {
-						idx++
-						if idx%sp.Shards != sp.Shard {
-							return
-						}
-						sb = append([]int(nil), sb...)
-						soloA, _, e1 := c20RunSchedule(p, sa, nil, strings.Repeat("A", la))
-						_, soloB, e2 := c20RunSchedule(p, nil, sb, strings.Repeat("B", lb))
-						cs := map[string]any{"pair": p.Name, "sqlA": p.A.SQL, "sqlB": p.B.SQL, "seqA": sa, "seqB": sb}
-						if e1 != "" || e2 != "" {
-							a.fail("C20|pairs|exec|"+p.Name, e1+" "+e2, cs, nil, nil)
-							return
-						}
-						interleavings(la, lb, func(order string) {
-							gotA, gotB, e := c20RunSchedule(p, sa, sb, order)
-							a.r.Evaluations++
-							a.r.States++
-							a.r.Transitions += int64(la + lb)
-							if len(soloA)+len(soloB) > 0 {
-								a.r.Nontrivial++
-							}
-							if e != "" {
-								a.fail("C20|pairs|exec|"+p.Name, e, cs, nil, nil)
-								return
-							}
-							a.outcome(fmt.Sprint(gotA, gotB))
-							if fmt.Sprint(gotA) != fmt.Sprint(soloA) || fmt.Sprint(gotB) != fmt.Sprint(soloB) {
-								a.fail("C20|instances-influence-each-other|pair="+p.Name, fmt.Sprintf("pair %s, inputs A=%v B=%v interleaved as %s: A delivers %v (alone %v), B delivers %v (alone %v)", p.Name, sa, sb, order, gotA, soloA, gotB, soloB),
-									map[string]any{"pair": p.Name, "sqlA": p.A.SQL, "sqlB": p.B.SQL, "seqA": sa, "seqB": sb, "order": order}, fmt.Sprint(soloA, soloB), fmt.Sprint(gotA, gotB))
-							}
-						})
-					})
-				}
-			})
+	for pi, p := range c20Pairs() {
+		if pi != sp.Shard {
+			continue
 		}
+		// 1. baselines, B first then A, in a process in which no instance has run yet: what each instance
+		// delivers when it is alone
+		seqsOf := func(n int) [][]int {
+			var out [][]int
+			for l := 1; l <= maxL; l++ {
+				sequences(l, n, func(sq []int) { out = append(out, append([]int(nil), sq...)) })
+			}
+			return out
+		}
+		seqA, seqB := seqsOf(len(p.A.Rows)), seqsOf(len(p.B.Rows))
+		baseA, baseB := map[string]string{}, map[string]string{}
+		execFail := false
+		for _, sb := range seqB {
+			_, o, e := c20RunSchedule(p, nil, sb, strings.Repeat("B", len(sb)), false)
+			if e != "" {
+				a.fail("C20|pairs|exec|"+p.Name, e, map[string]any{"pair": p.Name, "sqlB": p.B.SQL}, nil, nil)
+				execFail = true
+				break
+			}
+			baseB[fmt.Sprint(sb)] = fmt.Sprint(o)
+		}
+		for _, sa := range seqA {
+			o, _, e := c20RunSchedule(p, sa, nil, strings.Repeat("A", len(sa)), false)
+			if e != "" {
+				a.fail("C20|pairs|exec|"+p.Name, e, map[string]any{"pair": p.Name, "sqlA": p.A.SQL}, nil, nil)
+				execFail = true
+				break
+			}
+			baseA[fmt.Sprint(sa)] = fmt.Sprint(o)
+		}
+		if execFail {
+			continue
+		}
+		// 2. every interleaving of the two inputs; instances created up front, or each at its first input
+		for _, sa := range seqA {
+			for _, sb := range seqB {
+				sa, sb := sa, sb
+				cs := map[string]any{"pair": p.Name, "sqlA": p.A.SQL, "sqlB": p.B.SQL, "seqA": sa, "seqB": sb}
+				interleavings(len(sa), len(sb), func(order string) {
+					for _, lazy := range []bool{false, true} {
+						gotA, gotB, e := c20RunSchedule(p, sa, sb, order, lazy)
+						a.r.Evaluations++
+						a.r.States++
+						a.r.Transitions += int64(len(sa) + len(sb))
+						a.r.Nontrivial++
+						if e != "" {
+							a.fail("C20|pairs|exec|"+p.Name, e, cs, nil, nil)
+							return
+						}
+						a.outcome(fmt.Sprint(gotA, gotB))
+						if fmt.Sprint(gotA) != baseA[fmt.Sprint(sa)] || fmt.Sprint(gotB) != baseB[fmt.Sprint(sb)] {
+							a.fail("C20|instances-influence-each-other|pair="+p.Name, fmt.Sprintf("pair %s, inputs A=%v B=%v interleaved as %s (instances created at first input: %v): A delivers %v (alone %v), B delivers %v (alone %v)", p.Name, sa, sb, order, lazy, gotA, baseA[fmt.Sprint(sa)], gotB, baseB[fmt.Sprint(sb)]),
+								map[string]any{"pair": p.Name, "sqlA": p.A.SQL, "sqlB": p.B.SQL, "seqA": sa, "seqB": sb, "order": order, "lazy_creation": lazy}, baseA[fmt.Sprint(sa)]+" "+baseB[fmt.Sprint(sb)], fmt.Sprint(gotA, gotB))
+							return
+						}
+					}
+				})
+			}
+		}
+		// 3. the baselines again, after both kinds of instance have lived in this process: an instance that
+		// leaves something behind in a process-wide registry or cache changes what a later instance delivers
+		for _, sb := range seqB {
+			_, o, _ := c20RunSchedule(p, nil, sb, strings.Repeat("B", len(sb)), false)
+			a.r.Evaluations++
+			if fmt.Sprint(o) != baseB[fmt.Sprint(sb)] {
+				a.fail("C20|instance-result-depends-on-earlier-instances|pair="+p.Name, fmt.Sprintf("pair %s: instance B alone on input %v delivered %v in a fresh process and %v after instances of A had run in the process", p.Name, sb, baseB[fmt.Sprint(sb)], o),
+					map[string]any{"pair": p.Name, "sqlA": p.A.SQL, "sqlB": p.B.SQL, "seqB": sb}, baseB[fmt.Sprint(sb)], fmt.Sprint(o))
+				break
+			}
+		}
+		for _, sa := range seqA {
+			o, _, _ := c20RunSchedule(p, sa, nil, strings.Repeat("A", len(sa)), false)
+			a.r.Evaluations++
+			if fmt.Sprint(o) != baseA[fmt.Sprint(sa)] {
+				a.fail("C20|instance-result-depends-on-earlier-instances|pair="+p.Name, fmt.Sprintf("pair %s: instance A alone on input %v delivered %v in a fresh process and %v after instances of B had run in the process", p.Name, sa, baseA[fmt.Sprint(sa)], o),
+					map[string]any{"pair": p.Name, "sqlA": p.A.SQL, "sqlB": p.B.SQL, "seqA": sa}, baseA[fmt.Sprint(sa)], fmt.Sprint(o))
+				break
+			}
+		}
+		a.sample(map[string]any{"pair": p.Name, "sqlA": p.A.SQL, "sqlB": p.B.SQL, "sequences_per_instance": len(seqA)})
 	}
-	a.sample(map[string]any{"pairs": len(c20Pairs()), "example": c20Pairs()[1]})
 }
 
 func (c20) Run(u fw.Unit) fw.Result {
@@ -315,7 +368,7 @@ func (c20) Run(u fw.Unit) fw.Result {
 func (c20) Describe(tier string) fw.Description {
 	return fw.Description{
 		Level: "model_checking",
-		Rule: "(a) immutability: 17 query kinds (unnest over scalars and over objects, projection, *, SELECT-analytic, WHERE-analytic with and without OVER, OVER, changed_cols, JOIN, function-expression group key, counting, tumbling, session, global window, MATCH_RECOGNIZE, CASE) x {Emit, EmitSync} x rows with nested maps and slices: a deep snapshot of every caller map before the call must equal it after quiescence, and every batch handed to a sink must still read the same at the end; (b) independence: 14 instance pairs (same SQL; nth_value(v,1) vs (v,2); percentile(v,0) vs (v,1); the same expression text over differently typed rows; analytic; LIKE; CASE vs string concatenation) x all input sequences of length 1..L per instance x ALL interleavings of the two inputs at operation granularity in one process, compared with each instance alone after VerifResetGlobals(); non-trivial = some output exists",
+		Rule: "(a) immutability: 17 query kinds (unnest over scalars and over objects, projection, *, SELECT-analytic, WHERE-analytic with and without OVER, OVER, changed_cols, JOIN, function-expression group key, counting, tumbling, session, global window, MATCH_RECOGNIZE, CASE) x {Emit, EmitSync} x rows with nested maps and slices: a deep snapshot of every caller map before the call must equal it after quiescence, and every batch handed to a sink must still read the same at the end; (b) independence: 14 instance pairs (same SQL; nth_value(v,1) vs (v,2); percentile(v,0) vs (v,1); the same expression text over differently typed rows; analytic; LIKE; CASE vs string concatenation) x all input sequences of length 1..L per instance x ALL interleavings of the two inputs at operation granularity in one process (instances created up front or each at its first input; one worker process per pair, baselines taken first and again at the end), compared with each instance alone after VerifResetGlobals(); non-trivial = some output exists",
 		Bounds:      map[string]any{"max_len_per_instance": map[string]int{"quick": 2, "thorough": 3}},
 		Assumptions: []string{"interleaving at Emit granularity under the eager deterministic schedule; finer interleavings of two instances' goroutines are not explored (they share only the function registry and the expression caches, whose internal synchronisation is in the quiet packages)"},
 	}
